@@ -17,7 +17,7 @@
 From Coq Require Import List NArith.
 From Muscle Require Import Gen.Consts Gw.GwBase Gw.TransportProofs
   Gw.FrameModel Gw.FrameProofs Gw.FrameDefault Gw.ZlibModel Gw.ZlibProofs Gw.TmplModel Gw.TmplProofs Gw.WsModel Gw.WsProofs Gw.WsDefault
-  Gw.TextModel Gw.TextProofs Gw.RawModel Gw.RawProofs Gw.SlipModel Gw.SlipProofs.
+  Gw.TextModel Gw.TextProofs Gw.RawModel Gw.RawProofs Gw.SlipModel Gw.SlipProofs Gw.MiniModel Gw.MiniProofs.
 Import ListNotations.
 Local Open Scope N_scope.
 
@@ -414,6 +414,56 @@ Theorem C03_slip_frames_roundtrip : forall cs, Forall nonempty cs ->
 Proof. exact sl_feed_frames. Qed.
 Print Assumptions C03_slip_frames_roundtrip.
 
+
+(* ====================================================================== interoperation with the C "mini" gateway
+   (lang/c/minimessage/MiniMessageGateway.c), which speaks the DEFAULT encoding: a MiniMessageGateway sender feeding
+   the C++ MessageIOGateway receiver, and the C++ sender feeding a MiniMessageGateway receiver (which hands over at
+   most one Message per MGDoInput call).  Domain of the second pair: flattened size at least 1 and small enough
+   that the mini receiver's doubled input buffer stays below 2^32 bytes. *)
+Theorem C03_mini_to_cpp_prefix_safety : forall max_in (evs : list (event bytes)),
+  Forall (ev_wf (d_wfb max_in)) evs ->
+  exists tl, ev_msgs evs = s_dlv (sys_run ms_queue mg_do_output (d_do_input max_in) m2c_sys0 evs) ++ tl.
+Proof. exact mini_to_cpp_prefix_safety. Qed.
+Print Assumptions C03_mini_to_cpp_prefix_safety.
+
+Theorem C03_mini_to_cpp_completeness : forall max_in (evs : list (event bytes)),
+  Forall (ev_wf (d_wfb max_in)) evs ->
+  ms_rem (s_snd (sys_run ms_queue mg_do_output (d_do_input max_in) m2c_sys0 evs)) = [] ->
+  s_pipe (sys_run ms_queue mg_do_output (d_do_input max_in) m2c_sys0 evs) = [] ->
+  s_dlv (sys_run ms_queue mg_do_output (d_do_input max_in) m2c_sys0 evs) = ev_msgs evs.
+Proof. exact mini_to_cpp_completeness. Qed.
+Print Assumptions C03_mini_to_cpp_completeness.
+
+Theorem C03_mini_to_cpp_fair_completion : forall max_in (evs : list (event bytes)) (rs : list (list (event bytes))),
+  Forall (ev_wf (d_wfb max_in)) evs -> Forall round rs ->
+  (measure ms_rem (fun _ => 0%nat) (sys_run ms_queue mg_do_output (d_do_input max_in) m2c_sys0 evs) <= length rs)%nat ->
+  let st := sys_run ms_queue mg_do_output (d_do_input max_in) m2c_sys0 (evs ++ concat rs) in
+  quiet ms_rem st /\ s_dlv st = ev_msgs evs.
+Proof. exact mini_to_cpp_fair_completion. Qed.
+Print Assumptions C03_mini_to_cpp_fair_completion.
+
+Theorem C03_cpp_to_mini_prefix_safety : forall evs : list (event bytes),
+  Forall (ev_wf mg_wfm) evs ->
+  exists tl, ev_msgs evs = s_dlv (sys_run fs_queue d_do_output mg_do_input c2m_sys0 evs) ++ tl.
+Proof. exact cpp_to_mini_prefix_safety. Qed.
+Print Assumptions C03_cpp_to_mini_prefix_safety.
+
+Theorem C03_cpp_to_mini_completeness : forall evs : list (event bytes),
+  Forall (ev_wf mg_wfm) evs ->
+  d_rem (s_snd (sys_run fs_queue d_do_output mg_do_input c2m_sys0 evs)) = [] ->
+  s_pipe (sys_run fs_queue d_do_output mg_do_input c2m_sys0 evs) = [] ->
+  s_dlv (sys_run fs_queue d_do_output mg_do_input c2m_sys0 evs) = ev_msgs evs.
+Proof. exact cpp_to_mini_completeness. Qed.
+Print Assumptions C03_cpp_to_mini_completeness.
+
+Theorem C03_cpp_to_mini_fair_completion : forall (evs : list (event bytes)) (rs : list (list (event bytes))),
+  Forall (ev_wf mg_wfm) evs -> Forall round rs ->
+  (measure d_rem (fun _ => 0%nat) (sys_run fs_queue d_do_output mg_do_input c2m_sys0 evs) <= length rs)%nat ->
+  let st := sys_run fs_queue d_do_output mg_do_input c2m_sys0 (evs ++ concat rs) in
+  quiet d_rem st /\ s_dlv st = ev_msgs evs.
+Proof. exact cpp_to_mini_fair_completion. Qed.
+Print Assumptions C03_cpp_to_mini_fair_completion.
+
 (* ====================================================================== non-vacuity: concrete runs
    that satisfy the premises above (segmented transfers reaching the quiet state) *)
 Definition ex_big : N := c_MUSCLE_NO_LIMIT.
@@ -567,5 +617,21 @@ Proof.
   split.
   - cbn. repeat split; try (repeat constructor; discriminate); try (left; reflexivity); try (right; left; reflexivity);
       try (right; right; reflexivity); intros (H1 & H2 & H3); discriminate.
+  - vm_compute. auto.
+Qed.
+
+(* mini sender -> C++ receiver and C++ sender -> mini receiver: two Messages, short writes and reads; the mini
+   receiver needs one call per Message *)
+Example C03_mini_nonvacuous :
+  Forall (ev_wf (d_wfb ex_big)) ex_bin_evs /\ Forall (ev_wf mg_wfm) ex_bin_evs /\
+  (let st := sys_run ms_queue mg_do_output (d_do_input ex_big) m2c_sys0 ex_bin_evs in
+   ms_rem (s_snd st) = [] /\ s_pipe st = [] /\ s_dlv st = [ex_m1; ex_m2]) /\
+  (let st := sys_run fs_queue d_do_output mg_do_input c2m_sys0 (ex_bin_evs ++ [EIn ex_big [ex_big; ex_big]]) in
+   d_rem (s_snd st) = [] /\ s_pipe st = [] /\ s_dlv st = [ex_m1; ex_m2]).
+Proof.
+  split; [|split; [|split]].
+  - repeat constructor; vm_compute; try discriminate; reflexivity.
+  - repeat constructor; vm_compute; try discriminate; reflexivity.
+  - vm_compute. auto.
   - vm_compute. auto.
 Qed.
